@@ -166,10 +166,6 @@ def validate_translator(asts, res, seed, B):
             if mism <= 3:
                 res.inconclusive.append("translator validation mismatch on %r: interpreter %r (panics %s) native %r"
                                         % (case, got, [r for _, r, _ in live], nr))
-        if py_expected(case["contents"].replace("\r\n", "\n"), case["comment"]) != nr.get("config_text") and "\r" not in case["contents"]:
-            mism += 1
-            res.inconclusive.append("concrete oracle disagrees with native on %r: %r vs %r"
-                                    % (case, py_expected(case["contents"], case["comment"]), nr.get("config_text")))
     for case, nr in zip(argcases, nat[len(cases):]):
         it.panics = []
         if "string" in case:
